@@ -10,7 +10,11 @@ EXTENDS Units, TLC
 VARIABLES stage, scn, out
 vars == <<stage, scn, out>>
 C == 3
-Settings(cont) == [amp |-> << <<<<4, 1>>, <<1, 1>>>>, <<<<5, 2>>, <<1, 1>>>>, <<<<0, 1>>, <<0, 1>>>> >>,
+(* "sample" / "sample-double": c2 is a second LINEAR channel without gain, so that a call can hold  *)
+(* two linear channels of which only one has a gain; "sample-nogain": c2 log with a1 = 0 in the file *)
+Settings(cont) == [amp |-> IF cont = "sample-nogain"
+                           THEN << <<<<4, 1>>, <<1, 1>>>>, <<<<5, 2>>, <<1, 1>>>>, <<<<0, 1>>, <<0, 1>>>> >>
+                           ELSE << <<<<4, 1>>, <<1, 1>>>>, <<<<0, 1>>, <<0, 1>>>>, <<<<0, 1>>, <<0, 1>>>> >>,
                    gain |-> <<NoVal, NoVal, IF cont \in {"sample", "sample-double"} THEN <<4, 1>> ELSE NoVal>>,
                    res |-> <<1024, 256, 1000>>]
 Containers == {"sample", "sample-nogain", "sample-double", "array", "array-float"}
